@@ -26,6 +26,8 @@ func init() {
 	wrap("C19", extra9C19)
 	wrap("C10", extra9C10)
 	wrap("C07", extra9C07b)
+	wrap("C07", extra9C07c)
+	registry["C07"].Pkgs = append(registry["C07"].Pkgs, "model/models/llama", "model/models/mistral3", "model/models/mllama", "model/models/gemma2", "model/models/gemma3")
 	wrap("C11", func(c *Ctx) {
 		rule := "C11-R21"
 		c.Rule(rule, "an idle runner is a runner nobody holds (same analysis as C01-R6): in useLoadedRunner a reference is taken exactly on the paths that hand the runner out and start the goroutine that gives the reference back — a path that counts the request and then gives up the hand-over (the client went away) leaves refCount at 1 for ever: the runner never looks idle to findRunnerToUnload, never expires, and at capacity the scheduler waits on it")
@@ -604,4 +606,81 @@ func extra9C07b(c *Ctx) {
 		c.Check(rule, f.Key()+" sliding-window answer#"+itoa(n)+" counts the stored window", c.Pos(ex.Return), ok, "the answer does not depend on how many positions of the new window are stored for the sequence")
 	}
 	c.Expect(rule, "sliding-window answers of CanResume", n, 1)
+}
+
+// ---------------------------------------------------------------------------------- C07 (Shift rotates like Forward)
+
+func extra9C07c(c *Ctx) {
+	rule := "C07-R21"
+	c.Rule(rule, "shifted keys are rotated the way fresh keys are: in every model package the RoPE call of the Shift method passes, as dimension, the same field (or the same converted field) that the RoPE calls of the attention Forward pass, and as rope type the same constant — the cache calls Shift to move the kept keys to their new positions after a context shift, and a call with the two uint32 arguments exchanged (dimension 0, the dimension count as type) type-checks and leaves the cached keys rotated unlike anything a fresh runner computes")
+	nPk := 0
+	for _, rel := range []string{"model/models/llama", "model/models/mistral3", "model/models/mllama", "model/models/gemma2", "model/models/gemma3"} {
+		if c.P.Pkgs[rel] == nil {
+			continue
+		}
+		type ropeCall struct {
+			fn   *core.Func
+			call *ast.CallExpr
+		}
+		var fwd, shift []ropeCall
+		for _, f := range c.P.FuncsOf(rel) {
+			if strings.HasSuffix(c.Pos(f.Body), "_test.go") {
+				continue
+			}
+			info := f.Info()
+			for _, call := range core.Calls(f.Body, true) {
+				if !strings.HasSuffix(core.CalleeName(info, call), "Tensor.RoPE") || len(call.Args) != 7 {
+					continue
+				}
+				if strings.HasSuffix(f.Name, ".Shift") {
+					shift = append(shift, ropeCall{f, call})
+				} else {
+					fwd = append(fwd, ropeCall{f, call})
+				}
+			}
+		}
+		if len(shift) == 0 || len(fwd) == 0 {
+			continue
+		}
+		nPk++
+		// role of an argument: the field it reads (through conversions and single-assignment locals), or its constant
+		describe := func(rc ropeCall, e ast.Expr) (fld string, cst string) {
+			info := rc.fn.Info()
+			g := c.G(rc.fn)
+			for _, x := range expand(g, e, 2) {
+				ex, isE := x.(ast.Expr)
+				if !isE {
+					continue
+				}
+				if tv, has := info.Types[ex]; has && tv.Value != nil {
+					cst = tv.Value.String()
+				}
+				ast.Inspect(ex, func(m ast.Node) bool {
+					if se, ok := m.(*ast.SelectorExpr); ok && fld == "" {
+						if fv := core.FieldVar(info, se); fv != nil {
+							fld = fv.Name() // the outermost field selected (m.Options.attnKeyLen -> attnKeyLen)
+							return false
+						}
+					}
+					return true
+				})
+			}
+			return
+		}
+		dimF, _ := describe(fwd[0], fwd[0].call.Args[3])
+		_, typF := describe(fwd[0], fwd[0].call.Args[4])
+		for i, sc := range shift {
+			dimS, dimC := describe(sc, sc.call.Args[3])
+			typFld, typS := describe(sc, sc.call.Args[4])
+			why := ""
+			switch {
+			case dimF != "" && dimS != dimF:
+				why = "Shift passes `" + core.ExprString(sc.call.Args[3]) + "` as the dimension (constant " + dimC + "), Forward passes the field " + dimF
+			case typF != "" && typS != typF:
+				why = "Shift passes `" + core.ExprString(sc.call.Args[4]) + "` as the rope type (field " + typFld + "), Forward passes the constant " + typF
+			}
+			c.Check(rule, sc.fn.Key()+" RoPE#"+itoa(i+1)+" agrees with Forward", c.Pos(sc.call), why == "", why)
+		}
+	}
+	c.Expect(rule, "model packages with a Shift and a Forward that apply RoPE", nPk, 4)
 }
